@@ -24,7 +24,7 @@ META = dict(
     outside="distribution of the pivots (uniformity); references with > 2 units per annotator; > 3 ground-truth annotators",
     stubs=["np.random.uniform/choice = fresh symbolic draws under their contract", "int() = truncation toward zero on symbolic reals"],
     assumptions=["reference units longer than SEGMENT_PRECISION", "reference bounds enclose its units (C13 invariant)"],
-    cfg_budget_s=dict(quick=240, thorough=1700),
+    cfg_budget_s=dict(quick=240, thorough=900),
 )
 
 
